@@ -59,6 +59,10 @@ type tunnelCase struct {
 	// Duplex: Up1 and Down1 are both large, so that both endpoints stream their own pseudo-random
 	// payload at the same time (full duplex) before either half-closes
 	Duplex bool `json:"duplex,omitempty"`
+	// NoWaitEOF (order "client-first"): the far side does not wait for the client's end-of-stream before
+	// its second phase - a leg the proxy cannot half-close never shows it while the tunnel lives -; it goes
+	// on streaming Down2 (≥ 256 KiB) once the client HAS half-closed and all of Up1 has arrived, and finishes
+	NoWaitEOF bool `json:"no_wait_eof,omitempty"`
 }
 
 // payload derives n bytes from a seed (splitmix64).
@@ -93,6 +97,25 @@ type dirObs struct {
 	sent, got []byte
 	// when the destination endpoint read its first and its last payload byte
 	firstAt, lastAt time.Time
+	// finAt: just BEFORE the source called CloseWrite; eofAt: just AFTER the destination's read returned
+	// end-of-stream
+	finAt, eofAt time.Time
+}
+
+// countingReader closes `reached` when `want` bytes have been read through it.
+type countingReader struct {
+	r       io.Reader
+	n, want int
+	reached chan struct{}
+}
+
+func (c *countingReader) Read(p []byte) (int, error) {
+	n, err := c.r.Read(p)
+	if c.n < c.want && c.n+n >= c.want {
+		close(c.reached)
+	}
+	c.n += n
+	return n, err
 }
 
 // arrived notes that payload bytes of this direction reached the destination endpoint just now.
@@ -362,6 +385,11 @@ func (e *env) runTunnel(tc *tunnelCase, stall, limit time.Duration) *tunnelObs {
 	replied := make(chan int, 1)     // status of the proxy's reply
 	clientEOF := make(chan struct{}) // client has read end-of-stream
 	farEOF := make(chan struct{})    // far side has read end-of-stream
+	clientFin := make(chan struct{}) // the client's CloseWrite has returned
+	upAll := make(chan struct{})     // all of Up1 has arrived at the far side
+	if tc.Up1 == 0 {
+		close(upAll)
+	}
 	abort := make(chan struct{})
 	var abortOnce sync.Once
 	var farMu sync.Mutex
@@ -442,6 +470,7 @@ func (e *env) runTunnel(tc *tunnelCase, stall, limit time.Duration) *tunnelObs {
 			return
 		}
 		got, err := readAll(cbr, len(down)+1024, func() { tick(); obs.Down.arrived() })
+		obs.Down.eofAt = time.Now()
 		obs.Down.got = got
 		obs.Down.EOF = errors.Is(err, io.EOF)
 		if !obs.Down.EOF {
@@ -505,11 +534,13 @@ func (e *env) runTunnel(tc *tunnelCase, stall, limit time.Duration) *tunnelObs {
 			}
 		}
 		// TCP: FIN; TLS listener: close_notify, which the proxy's Read reports as end-of-stream
+		obs.Up.finAt = time.Now()
 		if err := conn.(interface{ CloseWrite() error }).CloseWrite(); err != nil {
 			obs.Up.WriteErr = "closewrite: " + errKind(err)
 			return
 		}
 		obs.Up.Fin = true
+		close(clientFin)
 	}()
 
 	// ---- far side
@@ -557,7 +588,8 @@ func (e *env) runTunnel(tc *tunnelCase, stall, limit time.Duration) *tunnelObs {
 		go func() { // far reader
 			defer fw.Done()
 			defer close(farEOF)
-			got, err := readAll(fe.br, len(up)+1024, func() { tick(); obs.Up.arrived() })
+			got, err := readAll(&countingReader{r: fe.br, want: tc.Up1, reached: upAll}, len(up)+1024, func() { tick(); obs.Up.arrived() })
+			obs.Up.eofAt = time.Now()
 			obs.Up.got = got
 			obs.Up.EOF = errors.Is(err, io.EOF)
 			if !obs.Up.EOF {
@@ -588,7 +620,11 @@ func (e *env) runTunnel(tc *tunnelCase, stall, limit time.Duration) *tunnelObs {
 				return
 			}
 			if tc.Order == "client-first" {
-				if !waitFor(farEOF) {
+				if tc.NoWaitEOF {
+					if !waitFor(clientFin) || !waitFor(upAll) {
+						return
+					}
+				} else if !waitFor(farEOF) {
 					return
 				}
 				if tc.HoldMs > 0 {
@@ -602,6 +638,7 @@ func (e *env) runTunnel(tc *tunnelCase, stall, limit time.Duration) *tunnelObs {
 					return
 				}
 			}
+			obs.Down.finAt = time.Now()
 			if err := fe.closeWrite(); err != nil {
 				obs.Down.WriteErr = "closewrite: " + errKind(err)
 				return
